@@ -704,7 +704,15 @@ pub fn translate_unit(src: &Path, unit: &Unit, g: &mut Global) -> R<String> {
                 out.push('\n');
             }
             Item::Enum(name) => {
-                let en = file
+                let has_enum = |f: &syn::File| f.items.iter().any(|i| matches!(i, syn::Item::Enum(e) if e.ident == *name));
+                let other_holder;
+                let enum_file: &syn::File = if has_enum(&file) {
+                    &file
+                } else {
+                    other_holder = other_file_with(src, unit.file, has_enum).ok_or(format!("unsupported: enum {} not found", name))?;
+                    &other_holder
+                };
+                let en = enum_file
                     .items
                     .iter()
                     .find_map(|i| match i {
@@ -824,7 +832,15 @@ pub fn translate_unit(src: &Path, unit: &Unit, g: &mut Global) -> R<String> {
                 out.push_str(&format!("/- mirror (written by hand in tools/rs2lean/src/targets.rs, part of the trusted base): {} -/\n{}\n\n", name, text));
             }
             Item::Struct(name, keep) => {
-                let (fields, text) = translate_struct(&file, name, keep, &g.opaques.clone())?;
+                let (fields, text) = match translate_struct(&file, name, keep, &g.opaques.clone()) {
+                    Ok(x) => x,
+                    Err(e) if e.ends_with("not found") => {
+                        // a type of another file of the crate (the unit's functions live in one file, its types need not)
+                        let other = other_file_with(src, unit.file, |f| all_structs(f).iter().any(|st| st.ident == *name)).ok_or(e)?;
+                        translate_struct(&other, name, keep, &g.opaques.clone())?
+                    }
+                    Err(e) => return Err(e),
+                };
                 out.push_str(&text);
                 g.structs.insert(name.to_string(), fields);
                 if is_packed(&file, name) {
@@ -1188,6 +1204,25 @@ pub fn ns_of(module: &str) -> &str {
         "RsSourceMap" => "RsTypes",
         m => m,
     }
+}
+
+/// the first other file of the source directory whose parse satisfies the predicate
+fn other_file_with(src: &Path, skip: &str, pred: impl Fn(&syn::File) -> bool) -> Option<syn::File> {
+    let mut names: Vec<_> = fs::read_dir(src).ok()?.filter_map(|e| e.ok()).map(|e| e.path()).filter(|p| p.extension().map(|x| x == "rs").unwrap_or(false)).collect();
+    names.sort();
+    for p in names {
+        if p.file_name().map(|n| n == skip).unwrap_or(false) {
+            continue;
+        }
+        if let Ok(text) = fs::read_to_string(&p) {
+            if let Ok(f) = syn::parse_file(&text) {
+                if pred(&f) {
+                    return Some(f);
+                }
+            }
+        }
+    }
+    None
 }
 
 fn path_last_seg(p: &syn::Path) -> String {
